@@ -143,7 +143,7 @@ def fmt_ann(n):
         KIND[int(n.node_type)], subs, hx(bytes(n.value)), nibstr(n.suffix), hx(rlp.encode(n.raw)))
 
 
-def fmt_traverse(fn):
+def fmt_traverse(fn, reraise_missing=False):
     """fn() performs traverse/traverse_from; returns the canonical line."""
     try:
         n = fn()
@@ -151,6 +151,10 @@ def fmt_traverse(fn):
     except TraversedPartialPath as e:
         return "partial traversed=%s tail=%s node=[%s] sim=[%s]" % (
             nibstr(e.nibbles_traversed), nibstr(e.untraversed_tail), fmt_ann(e.node), fmt_ann(e.simulated_node))
+    except (MissingTrieNode, MissingTraversalNode) as e:
+        if reraise_missing:
+            raise
+        return fmt_exc(e)
     except Exception as e:  # noqa
         return fmt_exc(e)
 
